@@ -187,13 +187,17 @@ def run_e1(prop, tier, seed, tasks=None, fn="vf.e1:run_task", level_note=None):
             last[0] = time.time()
             print(f"[{prop}] {done}/{total} done, {time.time()-t0:.0f}s", flush=True)
 
-    results = pool.run_tasks(fn, tasks, workers=min(15, os.cpu_count() or 2), task_timeout=240 if tier == "quick" else 900, progress=progress)
+    results = pool.run_tasks(fn, tasks, workers=min(15, os.cpu_count() or 2), task_timeout=100 if tier == "quick" else 900, progress=progress)
     return finish_e1(prop, tier, seed, tasks, results, known, t0)
 
 
 def finish_e1(prop, tier, seed, tasks, results, known, t0, extra_cov=None, extra_violations=(), extra_harness=()):
     violations, known_hits, harness = [], {}, list(extra_harness)
     for t, r in zip(tasks, results):
+        r.setdefault("id", t.get("id"))
+        r.setdefault("enabled", t.get("enabled"))
+        if r.get("id") is None:
+            r["id"] = t.get("id")
         r["_task"] = {k: t.get(k) for k in ("id", "enabled", "V", "lift", "open_all", "in", "out")}
         for kid in r.get("known_findings", []) or [d_k for d in r.get("decided", []) for d_k in d.get("known_findings", [])]:
             known_hits.setdefault(kid, []).append(r)
@@ -227,6 +231,9 @@ def finish_e1(prop, tier, seed, tasks, results, known, t0, extra_cov=None, extra
     decided = sum(1 for r in results if r["status"] in ("held", "violation", "known_finding"))
     print(f"[{prop}] decided {decided}/{len(results)} pairs; violations {len(violations) + len(extra_violations)}; known {sum(len(v) for v in known_hits.values())}; "
           f"inconclusive {sum(1 for r in results if r['status'] == 'inconclusive')}; harness errors {len(harness)}; wall {time.time()-t0:.0f}s", flush=True)
+    if os.environ.get("VERIF_DEBUG"):
+        for r in sorted(results, key=lambda r: -r.get("wall_s", 0))[:8]:
+            print("  slow:", r.get("id"), r.get("enabled"), r.get("status"), r.get("wall_s"), (r.get("reason") or "")[:80])
     if violations or extra_violations:
         return 1
     if harness:
